@@ -279,7 +279,9 @@ TCopy(e, clause) ==
        IN IF id \notin DOMAIN e.obs \/ ~WellFormed(e.obs[id]) THEN Res(F1(clause, "no/ill-formed result", ""), heap, "-")
           ELSE LET got == e.obs[id]
                IN Res(IF SameV(got, want) THEN <<>> ELSE F1(clause, "differs from the source in m(), m0(), fixed_dims() or get<M>()", "bitwise equal"),
-                      Put(id, got), Shp(want))
+                      Put(id, got),
+                      \* "~xdof": a live destination of ANOTHER dof is overwritten (cross-shape histories; vacuity guard of the driver)
+                      Shp(want) \o (IF clause = "C07.copy.assign" /\ Live(e.dst) /\ DofV(heap[id]) # DofV(want) THEN "~xdof" ELSE ""))
 
 TRplus(e) ==
   IF ~Live(e.src) THEN Res(Tool("dead_src"), heap, "-")
